@@ -678,6 +678,10 @@ func (viso *VirtualISO) Read(p []byte) (int, error) {
 }
 
 func (viso *VirtualISO) ReadAt(p []byte, off int64) (int, error) {
+	if off < 0 {
+		return 0, &fs.PathError{Op: "readat", Path: viso.root, Err: errors.New("negative offset")}
+	}
+
 	// TODO: make ReadAt able to work from multiple goroutines without data races
 	nw, err := viso.read(p, off)
 	return int(nw), err
